@@ -1,0 +1,40 @@
+//go:build verif
+
+// Package ociverif gives the verification harnesses in /verif access to the
+// internal request parser. It is only built with the "verif" build tag and
+// adds no behaviour: every function forwards to internal/ocirequest.
+package ociverif
+
+import (
+	"net/url"
+
+	"cuelabs.dev/go/oci/ociregistry/internal/ocirequest"
+)
+
+type (
+	Request    = ocirequest.Request
+	Kind       = ocirequest.Kind
+	ParseError = ocirequest.ParseError
+)
+
+var (
+	ErrNotFound          = ocirequest.ErrNotFound
+	ErrBadlyFormedDigest = ocirequest.ErrBadlyFormedDigest
+	ErrMethodNotAllowed  = ocirequest.ErrMethodNotAllowed
+	ErrBadRequest        = ocirequest.ErrBadRequest
+)
+
+// Parse is ocirequest.Parse.
+func Parse(method string, u *url.URL) (*Request, error) {
+	return ocirequest.Parse(method, u)
+}
+
+// ParseRange is ocirequest.ParseRange.
+func ParseRange(s string) (start, end int64, ok bool) {
+	return ocirequest.ParseRange(s)
+}
+
+// RangeString is ocirequest.RangeString.
+func RangeString(start, end int64) string {
+	return ocirequest.RangeString(start, end)
+}
